@@ -297,8 +297,9 @@ def run_chain(ctx, pt):
     import struct
     e = chain_kats()[pt]
     a, m = e['alg'], bytes.fromhex(e['message'])
-    new = struct.unpack('<4I', ref(a, m))
-    iv = (0x67452301, 0xefcdab89, 0x98badcfe, 0x10325476)
+    le = a in ('md4', 'md5')
+    iv = {'md4': mdsha.IV1[:4], 'md5': mdsha.IV1[:4], 'sha1': mdsha.IV1, 'sha256': mdsha.IV['sha256']}[a]
+    new = struct.unpack(('<%dI' if le else '>%dI') % len(iv), ref(a, m))
     if new[e['new_word']] != iv[e['equals_old_word']]:
         raise InternalError('chain_coincidences.json entry %d is not a coincidence under the reference' % pt)
     K = 'C01/%s/new-chaining-word-equal-to-an-old-one' % a
@@ -306,7 +307,7 @@ def run_chain(ctx, pt):
     ctx.eq(K, ctx.attempt(lambda: reused(a)(m)), ('ok', ref(a, m)))
     # the same first block spelled out (message || its own padding), followed by more data: the coincidence is then in a
     # non-final block and the wrong chaining value would be carried on
-    blk = m + b'\x80' + bytes(64 - 8 - 1 - 8) + struct.pack('<Q', 64)
+    blk = m + b'\x80' + bytes(64 - 8 - 1 - 8) + struct.pack('<Q' if le else '>Q', 64)
     for tail in (b'', b'abc', expander(130, 7)):
         ctx.eq(K + '/in-a-non-final-block', ctx.attempt(lambda: mk(a)(blk + tail)), ('ok', ref(a, blk + tail)))
     o = mk(a)
@@ -367,7 +368,7 @@ def subchecks():
             bound='10 algorithms x messages of 1025 blocks + 3 bytes with explicit bit lengths 8n-3, 8n-5, 8n, 8n-8, exact and longer containers (thorough: 4097 blocks for all, 16385 / 8193 blocks = more than 1 MiB for 6 algorithms)'),
         Sub('reject', pts_reject, run_reject, engine='P', bound='bitlen = 8|M| + {1,7,8,B} for |M| in {0,1,B/8-cs/8,B/8}'),
         Sub('chaining-coincidences', pts_chain, run_chain, engine='P',
-            bound='kats/chain_coincidences.json: MD5 and MD4 messages whose first compression yields a new chaining word equal to an old one at another position (found by tools/find_chain_coincidence.py over 2^31 messages each, re-verified per run): as the only block, as a non-final block with 3 tails, and streamed'),
+            bound='kats/chain_coincidences.json: MD5, MD4, SHA-1 and SHA-256 messages whose first compression yields a new chaining word equal to an old one at another position (found by tools/find_chain_coincidence.py over 2^31 messages each, re-verified per run): as the only block, as a non-final block with 3 tails, and streamed'),
         Sub('first-use-order', pts_firstuse, run_firstuse, engine='H', chunk=1,
             bound='every pair (configuration used first in a fresh process, algorithm): 23 first uses (each of the 10 algorithms with a bit length, every BLAKE / Blake2 size, HMAC over SHA-512/224 and MD5, SHA3-384, objects constructed but never called, an unfinished update) x 10 algorithms, byte and bit-length call vs reference'),
         Sub('preset-chaining-values', pts_preset_h, run_preset_h, engine='H',
